@@ -33,7 +33,8 @@ EXHAUSTIVE = {"quick": "all 36 tables over PIDs {5,7} x ppid in {5,7,unlisted 3}
                        "over root 2 + PIDs {5,7} x ppid in {2,5,7} x start in {10,20}, every caller, every other process as victim, every "
                        "stat-open index 0..3 (children), 0..2 (parent), 0..6 (parents); all 36 tables over PIDs {1,2} x ppid in {1,2,unlisted 0} x "
                        "start tick in {0,1}, every caller, all four calls, cold and after [create_time(), clock step +100 s, boot_time()]; "
-                       "13 seed-generated big tables (chain 1100, chain/comb 300 under recursion limit 150 or a deep stack, star 2000)",
+                       "13 seed-generated big tables (chain 1100, chain/comb 300 under recursion limit 150 or a deep stack, star 2000); all 9 tables "
+                       "over PIDs {5,7} x ppid in {5,7,unlisted 3}, caller alive/recycled/gone, four calls asked on a copy made by copy/deepcopy/pickle",
               "thorough": "all 1728 tables over PIDs {4,6,9} x ppid in {4,6,9,unlisted 2} x start in {10,20,30}, every caller, all four calls; "
                           "the same vanish-point enumeration as quick"}
 CASE_TIMEOUT = 30
@@ -440,15 +441,18 @@ def gen_cases(rng, tier):
                     cases.append(_mk(op, tab, pid, st, False, None, [], "exh-" + op))
         cases.extend(_vanish_exhaustive())
         cases.extend(_tick0_exhaustive())
+        cases.extend(_copy_exhaustive())
     # ---- multi-step histories (warm process_iter() cache) and vanish points
     n_hist = {"quick": 150, "thorough": 4000, "search": 800}[tier]
     n_van = {"quick": 100, "thorough": 4000, "search": 600}[tier]
     for _ in range(n_hist):
-        cases.append(_history_case(rng))
+        c = _history_case(rng)
+        cases.append(_with_copy(rng, c) if rng.random() < 0.35 else c)
     for _ in range(n_van):
         cases.append(_vanish_case(rng))
     for _ in range({"quick": 250, "thorough": 4000, "search": 800}[tier]):
-        cases.append(_clock_case(rng))
+        c = _clock_case(rng)
+        cases.append(_with_copy(rng, c) if rng.random() < 0.25 else c)
     for _ in range({"quick": 30, "thorough": 400, "search": 60}[tier]):
         cases.append(_unknown_ident_case(rng))
     # ---- random
@@ -495,7 +499,8 @@ def gen_cases(rng, tier):
             ("-vanish" if gone else "")
         if len(tab) < 2:
             cls = "trivial"
-        cases.append(_mk(op, tab, pid, ident, cached, cache, gone, cls))
+        c = _mk(op, tab, pid, ident, cached, cache, gone, cls)
+        cases.append(_with_copy(rng, c) if rng.random() < 0.2 and cls != "trivial" else c)
     # ---- size / depth: spread over the case list so that the (slower) Coq evaluations land in different shards
     big = _big_cases()
     step = max(1, len(cases) // (len(big) + 1))
@@ -537,6 +542,37 @@ def clock_events(case):
 
 
 SHAPES = {"chain": 0, "star": 1, "comb": 2}
+COPY_HOW = {"copy": 1, "deepcopy": 2, "pickle": 3}
+
+
+def _with_copy(rng, c):
+    """history step: copy the caller (copy.copy / copy.deepcopy / pickle round trip), before or after the table changed under
+    the original, and ask the COPY."""
+    c["copy"] = rng.choice(["copy", "copy", "copy", "deepcopy", "pickle"])
+    c["copy_when"] = rng.choice(["before", "after", "after"])
+    c["cls"] = c["cls"] + "-" + c["copy"]
+    return c
+
+
+def _copy_exhaustive():
+    """Every table over PIDs {5,7} x ppid in {5,7,unlisted 3} (start 10), every caller alive / recycled / gone, all four calls
+    asked on a copy made AFTER the change, by each of the three protocols."""
+    import itertools
+    out = []
+    P = [5, 7]
+    for combo in itertools.product(P + [3], repeat=2):
+        tab = [[p, pp, 10] for p, pp in zip(P, combo)]
+        for pid in P:
+            for state in ("alive", "recycled", "gone"):
+                t = [e for e in tab if not (state == "gone" and e[0] == pid)]
+                ident = 10 if state != "recycled" else 4
+                for how in ("copy", "deepcopy", "pickle"):
+                    for op in OPS:
+                        c = _mk(op, t, pid, ident, how == "copy" and state == "recycled", None, [], "exh-copy-%s-%s" % (how, state))
+                        c["copy"] = how
+                        c["copy_when"] = "after"
+                        out.append(c)
+    return out
 
 
 def big_table(big):
@@ -591,6 +627,10 @@ def coq_term(case):
     evs = G.lst([t for t in (_hev(e, case) for e in clock_events(case)) if t])
     obj = "(mk_obj %s %s %s %s %s)" % (G.bo(not case.get("unknown_ident")), G.z(case["pid"]), G.z(case["ident"]), G.z(BTIME0), evs)
     gone, goneb = vanish_sets(case)
+    if case.get("copy"):
+        how = G.z(COPY_HOW[case["copy"]])
+        return "after_copy %s %s (run_%s %s %s %s %s %s (copied %s %s))" % (
+            how, obj, case["op"], _fx(), tab, G.zs(gone), G.zs(goneb), G.opt(case["cache"], G.z), how, obj)
     return "run_%s %s %s %s %s %s %s" % (case["op"], _fx(), tab, G.zs(gone), G.zs(goneb), G.opt(case["cache"], G.z), obj)
 
 
@@ -642,6 +682,9 @@ def judge(case, coq, impl):
     tg = coq.get("tags") or {}
     ok = True
     why = ""
+    if isinstance(impl, dict) and impl.get("t") == "NoCopy":
+        # the copy protocol created no object: nothing was asked, nothing is demanded of the four calls
+        return Verdict("ok") if impl == model else Verdict("corr", "impl %r != model %r" % (impl, model))
     # whatever the table and whatever vanishes meanwhile: the only exception these calls may let out is
     # NoSuchProcess for the CALLER's pid, and only when the caller is gone or recycled
     if _is_exc(impl) and not (_is_exc(impl, "NoSuchProcess") and not tg.get("alive", False)):
@@ -723,6 +766,7 @@ def impl_run(case, coq, env):
         for p, pp, st in t:
             _write_stat(root, p, pp, st)
 
+    nocopy = None
     os.listdir = fake_listdir
     try:
         if hist:
@@ -736,6 +780,8 @@ def impl_run(case, coq, env):
             assert int(round(obj._ident[1] * clk)) == ident
             if case["cached"]:
                 obj.create_time()
+            if case.get("copy") and case.get("copy_when") == "before":
+                obj, nocopy = _copy_of(obj, case["copy"])
             set_table(tab)
         else:
             set_table(tab)
@@ -778,13 +824,21 @@ def impl_run(case, coq, env):
                         pass
                 else:
                     raise ValueError(ev)
+            if case.get("copy") and case.get("copy_when") == "before":
+                obj, nocopy = _copy_of(obj, case["copy"])
             if cur is None:
                 shutil.rmtree(os.path.join(root, str(pid)))
             else:
                 _write_stat(root, pid, cur[1], cur[2])
+        if case.get("copy") and case.get("copy_when") != "before":
+            obj, nocopy = _copy_of(obj, case["copy"])
     except BaseException:
         os.listdir = real_listdir
         raise
+    if nocopy is not None:
+        # the copy protocol raised: no object was created, nothing can be asked
+        os.listdir = real_listdir
+        return T("NoCopy", T(nocopy))
     # ---- patches: vanish points (k-th open of the victim's stat file), legacy vanish after the ppid_map() snapshot,
     #      lowest-PID cache
     real_ppid_map = psutil._ppid_map
@@ -880,6 +934,28 @@ def impl_run(case, coq, env):
         psutil._ppid_map = real_ppid_map
         psutil._LOWEST_PID = old_lowest
     return res
+
+
+def _copy_of(obj, how):
+    """(the copy, None) or (the original, name of the exception the protocol raised)."""
+    import copy
+    import pickle
+    from pv.canon import exc_name
+    try:
+        if how == "copy":
+            c = copy.copy(obj)
+        elif how == "deepcopy":
+            c = copy.deepcopy(obj)
+        elif how == "pickle":
+            c = pickle.loads(pickle.dumps(obj))
+        else:
+            raise ValueError(how)
+    except Exception as e:  # noqa
+        if isinstance(e, ValueError) and str(e) == how:
+            raise
+        return obj, exc_name(e)
+    assert c is not obj
+    return c, None
 
 
 class _Recursion(Exception):
